@@ -112,6 +112,14 @@ func genC02(ctx *Ctx) {
 			ctx.Input(exprInput(strings.Join(mt, " "), sx.L(), nil), len(mt) >= 3)
 		}
 	}
+	// every ordered pair of binary operators: a op1 b op2 c (precedence and associativity of each pair)
+	binops := []string{"AND", "OR", "XOR", "=", "<>", "!=", ">", "<", ">=", "<=", "+", "-", "LIKE", "NOT LIKE", "NOT IN", "*", "/", "%", "^", "IN", "<<", ">>"}
+	for _, o1 := range binops {
+		for _, o2 := range binops {
+			ctx.Count("operator-pair")
+			ctx.Input(exprInput("a "+o1+" b "+o2+" c", sx.L(), nil), true)
+		}
+	}
 	// a few special inputs: empty, blanks, unknown symbols, empty quoted identifier
 	for _, s := range []string{"", "   ", "a $ b", "a ? 1", "\"\"", "a + \"\"", "#", "a.b", "1 2", "f(,)", "f(a,,b)", "a[1][2]", "NOT NOT a", "a = NOT b", "- - a", "a IS NULL IS NULL", "f(a,)", "@", "ſ", "ıs"} {
 		ctx.Count("special")
